@@ -735,7 +735,7 @@ theorem resolveTranss_ext {names : List String} {home : Nat} (hh : home < names.
 
 /-- resolved frame `f'` (index `home`) is what resolve makes of `f` -/
 def FrameOf (names : List String) (home : Nat) (f : FrameSrc) (f' : Frame) : Prop :=
-  f'.name = f.name ∧ f'.enter = f.enter ∧ f'.recur = f.recur ∧ f'.exit = f.exit ∧
+  f'.name = f.name ∧ f'.guards = f.guards ∧ f'.enter = f.enter ∧ f'.recur = f.recur ∧ f'.exit = f.exit ∧
   All2 (TransOf names home) f.trans f'.trans
 
 theorem resolveFrames_ext {names : List String} :
@@ -794,7 +794,7 @@ theorem resolveFrames_ext {names : List String} :
           | zero =>
             simp only [List.getElem?_cons_zero, Option.some.injEq] at hg hg'
             subst hg; subst hg'
-            exact ⟨rfl, rfl, rfl, rfl, by simpa using o1⟩
+            exact ⟨rfl, rfl, rfl, rfl, rfl, by simpa using o1⟩
           | succ k =>
             simp only [List.getElem?_cons_succ] at hg hg'
             have := o2 k g g' hg hg'
